@@ -1,4 +1,5 @@
 """Shared extraction helpers used by several property rule modules."""
+import os
 import sympy as sp
 from .. import ast as A
 from ..algebra import Translator, Unconvertible, lvalue_key
@@ -443,3 +444,191 @@ def no_state_between_calls(chk, fq, rule):
                      "%s keeps nothing between calls: no static local that is mutable or initialised from an argument, no assignment to a global%s"
                      % (fq["qname"].replace("vfps::", ""), "" if not (stat or gl) else " (static: %s, globals: %s)" % (stat, gl)),
                      "%s:state-between-calls:%s" % (fq["qname"].replace("vfps::", ""), sorted(stat + gl)))
+
+
+# functions that change how the processor rounds, flushes subnormals or traps: results of the SAME arithmetic differ afterwards
+FP_ENV_CALLEES = {"_mm_setcsr", "__builtin_ia32_ldmxcsr", "_mm_set_flush_zero_mode", "fesetenv", "fesetround", "feupdateenv", "feholdexcept",
+                  "feenableexcept", "fedisableexcept", "_controlfp", "_control87", "_FPU_SETCW", "std::fesetenv", "std::fesetround",
+                  "std::feupdateenv", "std::feholdexcept", "__builtin_ia32_fxrstor", "__builtin_ia32_xrstor", "fesetmode"}
+FP_UNSAFE_FLAGS = ("-ffast-math", "-Ofast", "-funsafe-math-optimizations", "-fassociative-math", "-ffinite-math-only", "-freciprocal-math",
+                   "-mdaz-ftz", "-fno-signed-zeros", "-fno-trapping-math=", "-fflush-to-zero")
+
+
+def fp_environment_untouched(chk, prog, rule):
+    """`bit for bit` statements presuppose IEEE arithmetic in the default environment: no function of the program changes the
+    floating-point control state (rounding mode, flush-to-zero / denormals-are-zero, traps), contains inline assembly, and no unit
+    is built with a flag that licenses value-changing rewrites or links the FTZ start-up object."""
+    nfun, hits = 0, []
+    for f in prog.functions.values():
+        roots = [f["body"]] if f.get("body") else []
+        roots += [i["expr"] for i in f.get("inits", []) if isinstance(i.get("expr"), dict)]
+        if not roots:
+            continue
+        nfun += 1
+        for r in roots:
+            for x in A.walk(r):
+                cal = x.get("callee") or ""
+                if cal in FP_ENV_CALLEES or cal.split("::")[-1] in FP_ENV_CALLEES:
+                    hits.append((f, x, "calls " + cal))
+                elif x.get("k") in ("GCCAsmStmt", "MSAsmStmt"):
+                    hits.append((f, x, "contains inline assembly"))
+    chk.floor(rule + "-functions-scanned", nfun, 200)
+    for f, x, what in hits:
+        chk.check(False, rule, A.loc(f, x), "%s %s: the floating-point environment is no longer the default one, equal operands give other results"
+                  % (f["qname"], what), "fp-environment:%s:%s" % (f["qname"].replace("vfps::", ""), what.split()[-1]))
+    from .. import compdb
+    units, _ = compdb.load()
+    bad = sorted({(os.path.relpath(s, compdb.REPO), fl) for s, fls in units for fl in fls if fl.startswith(FP_UNSAFE_FLAGS)})
+    chk.check(not bad, rule, "CMakeLists.txt", "no unit is compiled with a flag that changes floating-point results (%s); %d functions with bodies "
+              "contain no call that sets the floating-point control state and no inline assembly" % (bad[:4] or "none", nfun),
+              "fp-flags:%s" % sorted({b[1] for b in bad}))
+
+
+_INT_WIDTH = {"char": 8, "signed char": 8, "unsigned char": 8, "short": 16, "unsigned short": 16, "int": 32, "unsigned int": 32,
+              "long": 64, "unsigned long": 64, "long long": 64, "unsigned long long": 64, "__int128": 128, "unsigned __int128": 128}
+
+
+def int_width(ctype):
+    t = (ctype or "").replace("const ", "").replace("volatile ", "").strip()
+    return _INT_WIDTH.get(t)
+
+
+def no_index_narrowing(chk, prog, rule, scope):
+    """Grid indices and sizes are 32/64-bit quantities (meshindex_t, size_t).  Converting an expression that mentions such a variable,
+    member or call result to an integer type of 16 bits or fewer wraps it for every grid larger than that type's range; literals,
+    enumerators and operands that are themselves of a small type are bounded by their type and not judged.  `scope(f)` selects the
+    functions; returns the number of integral conversions examined."""
+    nconv = 0
+    for f in prog.functions.values():
+        if not scope(f):
+            continue
+        roots = [f["body"]] if f.get("body") else []
+        roots += [i["expr"] for i in f.get("inits", []) if isinstance(i.get("expr"), dict)]
+        for r in roots:
+            for x in A.walk(r):
+                if x.get("cast") != "IntegralCast" or not x.get("c"):
+                    continue
+                to, fr = int_width(x.get("ctype")), int_width(x["c"][0].get("ctype"))
+                if not to or not fr:
+                    continue
+                nconv += 1
+                if not (to < fr and to <= 16):
+                    continue
+                wide = []
+                for y in A.walk(x["c"][0]):
+                    if y.get("k") in ("DeclRefExpr", "MemberExpr") and y.get("dkind") != "EnumConstant" and (int_width(y.get("ctype")) or 0) >= 32:
+                        wide.append(y.get("name") or (y.get("member") or {}).get("name") or "?")
+                    elif y.get("k") in ("CallExpr", "CXXMemberCallExpr", "CXXOperatorCallExpr") and (int_width(y.get("ctype")) or 0) >= 32:
+                        wide.append((y.get("callee") or "call").split("::")[-1] + "()")
+                if wide:
+                    chk.used(f)
+                    chk.check(False, rule, A.loc(f, x), "%s: a value computed from %s (%s) is converted to %s: it wraps for grids larger than %d"
+                              % (f["qname"].replace("vfps::", ""), sorted(set(wide)), x["c"][0].get("ctype"), x.get("ctype"), 2 ** to),
+                              "narrowing:%s:%s:%s" % (f["qname"].replace("vfps::", ""), "+".join(sorted(set(wide))), x.get("ctype")))
+    return nconv
+
+
+def owns_its_configuration(chk, prog, rule, classes, floor=1):
+    """What a class was set up with (sizes, bucket numbers, factors) must be what its methods later use: a data member of reference type
+    aliases an object of the caller, so a later change of that object changes the results of an already constructed instance; the same
+    holds for a raw pointer member that a constructor binds to (data of) a by-reference parameter.  shared_ptr members are the
+    declared sharing idiom of this code base and are judged by the effect rules instead."""
+    n = 0
+    for q in classes:
+        rec = prog.records.get(q)
+        if rec is None:
+            raise AnalysisBroken("class %s not found" % q)
+        for fld in rec["fields"]:
+            n += 1
+            ct = (fld.get("ctype") or "").rstrip()
+            chk.check(not ct.endswith("&"), rule, "%s:%d" % (os.path.relpath(rec["file"], _repo()), fld["line"]),
+                      "%s::%s (%s) is owned by the object, not a reference to caller data" % (q.replace("vfps::", ""), fld["name"], fld.get("type")),
+                      "reference-member:%s::%s" % (q.replace("vfps::", ""), fld["name"]))
+        ptr = {fld["name"] for fld in rec["fields"] if (fld.get("ctype") or "").rstrip().endswith("*")}
+        for f in prog.functions.values():
+            if f.get("class") != q or not f.get("inits"):
+                continue
+            refparams = {p_["name"] for p_ in f.get("params", []) if (p_.get("ctype") or "").rstrip().endswith(("&", "*"))}
+            for i in f["inits"]:
+                if i.get("ikind") == "member" and i.get("target") in ptr and isinstance(i.get("expr"), dict):
+                    al = sorted({y["name"] for y in A.walk(i["expr"]) if y.get("k") == "DeclRefExpr" and y.get("dkind") == "ParmVar" and y["name"] in refparams})
+                    n += 1
+                    chk.check(not al, rule, A.loc(f, {"line": i["line"]}), "%s::%s is not bound to data of the by-reference parameter %s"
+                              % (q.replace("vfps::", ""), i["target"], al or ""), "pointer-member-aliases-parameter:%s::%s" % (q.replace("vfps::", ""), i["target"]))
+    chk.floor(rule + "-members", n, floor)
+    return n
+
+
+def _repo():
+    from .. import compdb
+    return compdb.REPO
+
+
+SIZE_CHANGING = {"swap", "resize", "assign", "push_back", "emplace_back", "clear", "insert", "erase", "pop_back", "shrink_to_fit"}
+
+
+def _grow_only_resize(idx, x):
+    """`v.resize(e)` that can only lengthen v: e is std::max(v.size(), ..), or the call is in the then-branch of `e > v.size()` /
+    `v.size() < e` (same e, same v, by structure)"""
+    if (x.get("callee") or "").split("::")[-1] != "resize" or not x.get("args"):
+        return False
+    v, e = A.show(A.call_object(x)), A.strip(x["args"][0])
+    size_of_v = lambda n: n.get("k") == "CXXMemberCallExpr" and (n.get("callee") or "").endswith("::size") and A.show(A.call_object(n)) == v
+    if e.get("k") == "CallExpr" and e.get("callee") in ("std::max",) and any(size_of_v(A.strip(a_)) for a_ in e.get("args", [])):
+        return True
+    for c in A.enclosing(idx, x, {"IfStmt"}):
+        if not any(y is x or y.get("id") == x["id"] for y in A.walk(c.get("then") or {})):
+            continue
+        t = A.strip(c["cond"])
+        if t.get("k") == "BinaryOperator" and t.get("op") in (">", "<"):
+            big, small = (t["c"][0], t["c"][1]) if t["op"] == ">" else (t["c"][1], t["c"][0])
+            if size_of_v(A.strip(small)) and A.show(A.strip(big)) == A.show(e):
+                return True
+    return False
+
+
+def length_changing_members(prog, classes, field):
+    """methods (not constructors) of `classes` that can change the length of the container member `field`, directly or through another
+    member: sig -> (why, grow_only)"""
+    meths = [fq for fq in prog.functions.values() if fq.get("class") in classes and fq.get("body") and fq.get("kind") not in ("ctor", "dtor")]
+    changing = {}
+    for fq in meths:
+        idx = A.index(fq)
+        for x in A.walk(fq["body"]):
+            why = None
+            if x.get("k") == "CXXMemberCallExpr" and (x.get("callee") or "").split("::")[-1] in SIZE_CHANGING and A.member_name(A.call_object(x)) == field:
+                why = ("%s on %s (line %d)" % (x["callee"].split("::")[-1], field, x["line"]), _grow_only_resize(idx, x))
+            elif x.get("k") == "CallExpr" and (x.get("callee") or "") in ("std::swap", "swap") and any(A.member_name(a_) == field for a_ in x.get("args", [])):
+                why = ("std::swap of %s (line %d)" % (field, x["line"]), False)
+            elif x.get("k") in ("CXXOperatorCallExpr", "BinaryOperator") and x.get("op") == "=":
+                lhs_ = (x.get("args") or x.get("c"))[0]
+                if A.member_name(lhs_) == field and "vector" in (A.strip(lhs_).get("ctype") or ""):
+                    why = ("assignment to %s (line %d)" % (field, x["line"]), False)
+            if why is not None:
+                old = changing.get(fq["sig"])
+                changing[fq["sig"]] = why if old is None else (old[0], old[1] and why[1])
+    grew = True
+    while grew:
+        grew = False
+        for fq in meths:
+            if fq["sig"] in changing:
+                continue
+            for x in A.walk(fq["body"]):
+                if x.get("callee_sig") in changing:
+                    changing[fq["sig"]] = ("calls %s" % x["callee"].split("::")[-1], changing[x["callee_sig"]][1])
+                    grew = True
+                    break
+    return changing
+
+
+def external_callers(prog, sig, classes):
+    sites = []
+    for g_ in prog.functions.values():
+        if g_.get("class") in classes or not (g_.get("body") or g_.get("inits")):
+            continue
+        roots = ([g_["body"]] if g_.get("body") else []) + [i_["expr"] for i_ in g_.get("inits", []) if isinstance(i_.get("expr"), dict)]
+        for r_ in roots:
+            for x in A.walk(r_):
+                if x.get("callee_sig") == sig:
+                    sites.append(A.loc(g_, x))
+    return sites
